@@ -35,7 +35,7 @@ from vf.gen import c17_inputs as I
 PROPERTY = "C17"
 LEVEL = "exploration"
 PARALLEL = True
-RULE = ("inputs of five kinds, each serialised once and replayed by every child in 3 insertion orders: (refine) 1-8 hits "
+RULE = ("inputs of six kinds (the sixth: the real get_ruleset on the shipped rule files limited by rule names/categories), first five: each serialised once and replayed by every child in 3 insertion orders: (refine) 1-8 hits "
         "per gene with equal starts / equal scores / exact duplicates, split over several QueryResults; (filter) per-gene "
         "profile hits with overlap chains and score ties (no exact duplicates) against 0-2 equivalence groups; (hmmer) Pfam-like hits with "
         "equal starts and scores; (world) 1.5-20 kb linear/circular records, 2-10 genes, 1-7 rules incl. twins with the "
@@ -67,7 +67,7 @@ REQUIRED = ["children_clean", "op:stage-compare", "seeds:distinct-hash-probes", 
             "stage:refined_hits:normal", "stage:refined_hits:neighbour", "stage:filter_results",
             "stage:filter_result_multiple", "stage:hmmer_remove_overlapping", "stage:anchor_sets",
             "stage:protoclusters", "stage:detection_results_json", "stage:candidate_clusters", "stage:regions",
-            "stage:cds_annotations", "stage:areas_json", "stage:results_json", "stage:genbank", "stage:region_genbank",
+            "stage:cds_annotations", "stage:ruleset_rules", "stage:areas_json", "stage:results_json", "stage:genbank", "stage:region_genbank",
             "tie:equal-location-protoclusters", "tie:equal-start-hits", "tie:cds-defined-by-several-domains",
             "tie:several-rules", "shape:hybrid-of-equal-location-protoclusters", "shape:region-crosses-origin"]
 
@@ -75,7 +75,7 @@ REQUIRED_THOROUGH = ["seeds:at-least-32-distinct"]
 
 QUICK_SEEDS = [0, 1, 2, 3, 4, 5]
 THOROUGH_SEEDS = list(range(32))
-KIND_MIX = [("refine", 6), ("filter", 8), ("hmmer", 2), ("world", 5), ("layout", 4)]   # hit-level inputs are cheap
+KIND_MIX = [("refine", 6), ("filter", 8), ("hmmer", 2), ("world", 5), ("layout", 4), ("ruleset", 1)]   # hit-level inputs are cheap
 CHILD_TIMEOUT_S = {"quick": 120, "thorough": 300}
 ORDERS = 3
 HERE = os.path.dirname(os.path.dirname(os.path.dirname(os.path.abspath(__file__))))
